@@ -627,7 +627,7 @@ class PEval:
     def call(self, e, env):
         fn_text = norm_text(e.func)
         # module functions are looked up by their dotted text
-        if fn_text in ("len", "range", "zip", "enumerate", "reversed", "list", "tuple", "iter"):
+        if fn_text in ("len", "range", "zip", "enumerate", "reversed", "list", "tuple", "iter", "islice", "itertools.islice", "chain", "itertools.chain", "repeat", "itertools.repeat"):
             args = [self.ev(a, env) for a in e.args]
             if fn_text == "len":
                 if isinstance(args[0], PIter):
@@ -649,6 +649,17 @@ class PEval:
                 return PIter(reversed(self.iterate(args[0])))
             if fn_text == "iter":
                 return PIter(self.iterate(args[0])) if args else PIter([])
+            if fn_text in ("islice", "itertools.islice") and 2 <= len(args) <= 4 and all(a is None or isinstance(a, int) for a in args[1:]):
+                items = list(self.iterate(args[0]))
+                sl = slice(*args[1:]) if len(args) > 2 else slice(args[1])
+                return PIter(items[sl])
+            if fn_text in ("chain", "itertools.chain"):
+                out = []
+                for a in args:
+                    out.extend(self.iterate(a))
+                return PIter(out)
+            if fn_text in ("repeat", "itertools.repeat") and len(args) == 2 and isinstance(args[1], int):
+                return PIter([args[0]] * args[1])
             if fn_text == "list":
                 return list(self.iterate(args[0])) if args else []
             if fn_text == "tuple":
@@ -682,6 +693,25 @@ class PEval:
             if isinstance(a, Sym):
                 return a  # already a tensor
             raise Undecided("%s of a non-tensor" % fn_text)
+        if fn_text in ("sum", "math.fsum") and e.args and not e.keywords:
+            items = list(self.iterate(self.ev(e.args[0], env)))
+            acc = self.ev(e.args[1], env) if len(e.args) > 1 else 0
+            for it in items:
+                acc = self.binop(ast.Add(), acc, it)
+            return acc
+        if fn_text in ("any", "all") and len(e.args) == 1 and not e.keywords:
+            items = list(self.iterate(self.ev(e.args[0], env)))
+            if all(isinstance(v, (bool, int)) or v is None for v in items):
+                return any(items) if fn_text == "any" else all(items)
+            raise Undecided("%s of symbolic values" % fn_text)
+        if fn_text in ("math.prod", "np.prod") and len(e.args) == 1 and not e.keywords:
+            items = list(self.iterate(self.ev(e.args[0], env)))
+            if all(isinstance(v, int) and not isinstance(v, bool) for v in items):
+                r = 1
+                for v in items:
+                    r *= v
+                return r
+            raise Undecided("prod of symbolic values")
         if fn_text == "divmod" and len(e.args) == 2:
             a, b = self.ev(e.args[0], env), self.ev(e.args[1], env)
             if isinstance(a, int) and isinstance(b, int):
